@@ -1760,6 +1760,50 @@ fn cmd_threads(_seed: u64) {
     std::process::exit(3);
 }
 
+/// The reads one reader thread performs, with what it observed (one word per read; a read that
+/// panics is an observation too). Deterministic in (seed, th): the same sequence is run alone on a
+/// fresh document and concurrently with 15 others on a shared one.
+#[cfg(feature = "c20")]
+fn thread_reads(doc: &Document, ids: &[u32], seed: u64, th: u64, stride: usize, t_len: usize) -> Vec<u64> {
+    use std::hash::{Hash, Hasher};
+    let mut rng = Rng(seed ^ th.wrapping_mul(0x9E37));
+    let mut obs = Vec::new();
+    let tp = |p: usize| -> u64 {
+        match std::panic::catch_unwind(std::panic::AssertUnwindSafe(|| doc.text_pos_at(p))) {
+            Ok(t) => ((t.row as u64) << 32) | t.col as u64,
+            Err(_) => u64::MAX,
+        }
+    };
+    // a position far past the end, asked once at the start by every reader
+    obs.push(tp(usize::MAX));
+    obs.push(tp(t_len / 2));
+    for _ in 0..(ids.len() * 2).max(4).min(400) {
+        let k = rng.below(ids.len());
+        let o = std::panic::catch_unwind(std::panic::AssertUnwindSafe(|| {
+            let mut o = String::new();
+            crate::dump::api_node(&mut o, doc, doc.get_node(NodeId::new(ids[k])).unwrap());
+            o
+        }));
+        obs.push(match o {
+            Ok(s) => {
+                let mut h = std::collections::hash_map::DefaultHasher::new();
+                s.hash(&mut h);
+                h.finish() >> 1
+            }
+            Err(_) => u64::MAX,
+        });
+        for _ in 0..40 {
+            let p = rng.below(t_len + 2);
+            obs.push(tp(p - p % stride));
+        }
+        if rng.chance(1, 8) {
+            obs.push(tp(t_len + 1 + rng.below(5)));
+            obs.push(tp(rng.below(t_len + 1)));
+        }
+    }
+    obs
+}
+
 /// C20: threads sharing one document observe what a single thread observes.
 #[cfg(feature = "c20")]
 fn cmd_threads(seed: u64) {
@@ -1778,82 +1822,68 @@ fn cmd_threads(seed: u64) {
     assert_send_sync::<roxmltree::ExpandedName>();
     assert_send_sync::<roxmltree::NodeId>();
     assert_send_sync::<roxmltree::TextPos>();
+    std::panic::set_hook(Box::new(|_| {}));
     let stdout = std::io::stdout();
     let mut out = std::io::BufWriter::new(stdout.lock());
     let mut cases = read_cases();
-    // a document well beyond a few KiB with many lines (position caches, if any, become active)
+    // a document well beyond 64 KiB with many lines (position caches, if any, become active)
     let big: String = format!("<r>\n{}</r>", (0..6000).map(|i| format!("<e a='{}'>line {} \u{e9}</e>\n", i, i)).collect::<String>());
     cases.insert(0, ("threads-big".to_string(), false, u32::MAX, big));
     for (id, dtd, limit, t) in cases {
         let Ok(doc) = Document::parse_with_options(&t, opts(dtd, limit)) else { continue };
-        let mut single = String::new();
-        crate::dump::api_doc(&mut single, &doc);
         let ids: Vec<u32> = doc.descendants().map(|n| n.id().get()).collect();
-        let per_node = |i: u32| {
-            let mut o = String::new();
-            crate::dump::api_node(&mut o, &doc, doc.get_node(NodeId::new(i)).unwrap());
-            o
-        };
-        let expect: Vec<String> = ids.iter().map(|i| per_node(*i)).collect();
         let stride = if t.len() > 20_000 { 7 } else { 1 };
-        // what a single thread observes (for documents beyond 64 KiB: what the text itself says, so that
-        // the expectation does not depend on any state kept inside the document)
-        let pos_ref = |p: usize| {
-            let mut p = p.min(t.len());
-            while !t.is_char_boundary(p) {
-                p -= 1;
-            }
-            let row = 1 + t.as_bytes()[..p].iter().filter(|b| **b == b'\n').count() as u32;
-            let col = 1 + t[..p].chars().rev().take_while(|c| *c != '\n').count() as u32;
-            roxmltree::TextPos::new(row, col)
-        };
-        let pos_expect: Vec<roxmltree::TextPos> = (0..=t.len() + 1).map(|p| if t.len() > 60_000 { pos_ref(p - p % stride) } else { doc.text_pos_at(p - p % stride) }).collect();
-        let bad = std::sync::atomic::AtomicUsize::new(0);
         let t_len = t.len();
-        let end_pos = if t_len > 60_000 { pos_ref(t_len) } else { doc.text_pos_at(t_len) };
+        // what a single thread observes: every reader's sequence of reads, run alone on a document of
+        // its own (a fresh parse of the same text)
+        let expect: Vec<Vec<u64>> = (0..16u64)
+            .map(|th| {
+                let own = Document::parse_with_options(&t, opts(dtd, limit)).unwrap();
+                thread_reads(&own, &ids, seed, th, stride, t_len)
+            })
+            .collect();
+        let mut single = String::new();
+        {
+            let own = Document::parse_with_options(&t, opts(dtd, limit)).unwrap();
+            crate::dump::api_doc(&mut single, &own);
+        }
+        // the same sequences, concurrently, on ONE shared document that nobody has read yet
+        let bad = std::sync::atomic::AtomicUsize::new(0);
         std::thread::scope(|s| {
             for th in 0..16u64 {
                 let ids = &ids;
                 let expect = &expect;
-                let pos_expect = &pos_expect;
                 let bad = &bad;
                 let doc = &doc;
-                let root = doc.root();
                 s.spawn(move || {
-                    let mut rng = Rng(seed ^ th.wrapping_mul(0x9E37));
-                    for _ in 0..(ids.len() * 2).max(4).min(400) {
-                        let k = rng.below(ids.len());
-                        let mut o = String::new();
-                        crate::dump::api_node(&mut o, doc, doc.get_node(NodeId::new(ids[k])).unwrap());
-                        if o != expect[k] || root.id().get() != 0 {
-                            bad.fetch_add(1, std::sync::atomic::Ordering::Relaxed);
-                        }
-                        for q in [t_len + 1, t_len + 5, t_len + 9999, usize::MAX, t_len + 2, t_len] {
-                            if doc.text_pos_at(q) != end_pos {
-                                bad.fetch_add(1, std::sync::atomic::Ordering::Relaxed);
-                            }
-                        }
-                        for _ in 0..40 {
-                            let p = rng.below(pos_expect.len());
-                            if doc.text_pos_at(p - p % stride) != pos_expect[p] {
-                                bad.fetch_add(1, std::sync::atomic::Ordering::Relaxed);
-                            }
-                        }
-                    }
+                    let got = thread_reads(doc, ids, seed, th, stride, t_len);
+                    let want = &expect[th as usize];
+                    let n = got.iter().zip(want.iter()).filter(|(a, b)| a != b).count() + got.len().abs_diff(want.len());
+                    bad.fetch_add(n, std::sync::atomic::Ordering::Relaxed);
                 });
             }
         });
-        let mut after = String::new();
-        crate::dump::api_doc(&mut after, &doc);
-        // the document is unchanged by the concurrent reads: positions asked afterwards are the same
-        for p in (0..=t.len() + 1).step_by(if t.len() > 20_000 { 997 } else { 1 }) {
-            if doc.text_pos_at(p - p % stride) != pos_expect[p] {
-                bad.fetch_add(1, std::sync::atomic::Ordering::Relaxed);
+        // the document is unchanged by the concurrent reads
+        let after = std::panic::catch_unwind(std::panic::AssertUnwindSafe(|| {
+            let mut after = String::new();
+            crate::dump::api_doc(&mut after, &doc);
+            after
+        }))
+        .unwrap_or_else(|_| "panic".to_string());
+        // ... and positions asked afterwards are what a document nobody has read concurrently answers
+        {
+            let own = Document::parse_with_options(&t, opts(dtd, limit)).unwrap();
+            for p in (0..=t_len + 1).step_by(if t_len > 20_000 { 997 } else { 1 }) {
+                let got = std::panic::catch_unwind(std::panic::AssertUnwindSafe(|| doc.text_pos_at(p))).ok();
+                let want = std::panic::catch_unwind(std::panic::AssertUnwindSafe(|| own.text_pos_at(p))).ok();
+                if got != want {
+                    bad.fetch_add(1, std::sync::atomic::Ordering::Relaxed);
+                }
             }
         }
         let n = bad.load(std::sync::atomic::Ordering::Relaxed);
         if n > 0 || after != single {
-            verdict(&mut out, &id, false, &format!("{} thread observations differ from the single-thread dump", n), &[&t]);
+            verdict(&mut out, &id, false, &format!("{} observations of 16 concurrent readers differ from what the same reads give single-threaded on a fresh document", n), &[&t]);
         } else {
             verdict(&mut out, &id, true, "", &[]);
         }
